@@ -36,6 +36,16 @@ CLAIMS = {
  'C07': dict(cat='other', tech='decision-table extraction over MIR (eval_dyn, eval::eval, Continuation::report, constructors) + effect constraints on counters',
    text='Decides R07.1-R07.4: the decision table of eval_dyn over (mentioned, default body, partial-by-default, fallback mode, selector result, responder) equals the documented resolution order (default impl > partial-by-default > fallback mode; unmatched: strict error / partial unmock); counters are untouched on every path that selects no pattern and the diagnostics loop only runs the matcher; new/new_partial pass Error/Unmock and fallback_mode is never written afterwards; Continuation::report maps each unanswered continuation to its error via induce_panic; eval::eval never constructs a return value except from a stored output.',
    note='Not decided: the generated Unmock/CallDefaultImpl arms of #[unimock] impls are validated under C05/C15/C16, not here. Trusted: rustc MIR, exporter, rule engine.'),
+
+ 'C12': dict(cat='other', tech='type-level query on impl bounds (parametricity) + provenance of the stored closures + lock-closure census + variant-map tables + leak-primitive census + compile-fail witnesses with compiling twins',
+   text='Decides R12.1-R12.5: the single-use conversion impl has no Clone/Copy bound (so it cannot duplicate the value) while the multi-use one demands T: Clone; the stored single-use closure returns exactly the result of Option::take executed under MutexIsh::locked on a slot built from Some(value.into()) - no clone, no check-then-act; the multi-use closure returns Some(value.clone()) and never writes the original; an exhausted value is an error in eval::eval and composite kinds fail as a whole; no leak primitive exists in the crate; 21 witness programs (11 must be rejected with E0277 mentioning IntoReturn/Clone, each with a compiling twin) show the builder refuses multi-use quantifiers for non-Clone values. Races and drop counts cannot be sampled by tests; here they follow from take-under-lock plus ownership typing.',
+   note='Not decided: drop counts are implied by ownership typing (no leak primitives, forbid(unsafe_code)), not measured; interleavings are not enumerated. Witnesses are compiled (--emit=metadata), never run. Trusted: rustc type checker and MIR, exporter, rule engine, std contracts (Option::take, Mutex).', engine='FACTS+TYWIT'),
+ 'C13': dict(cat='other', tech='provenance analysis of ValueChain::push_node over MIR paths + who-may-write census of chain cells by receiver mutability + lint-level query + leak-primitive census',
+   text='Decides R13.1-R13.4: unsafe_code is forbidden in both crates (validity and non-aliasing of handed-out references are then the compiler\'s guarantee); on every path push_node returns exactly the reference OnceCell::try_insert returned in its Ok arm for the node built from this call\'s value, advancing only through `.next` of the occupying node; through &self the chain cells are only extended (try_insert) or read, replacement/clearing needs &mut self or happens in teardown/Drop; lent boxes are written only at configuration time and output() only borrows; no leak primitives. A check-then-insert rewrite (get + get_or_init) that only misbehaves under a race is rejected structurally.',
+   note='Not decided: no thread is run; drop-exactly-once follows from ownership typing. Trusted: rustc, exporter, rule engine, once_cell contract (try_insert returns Ok(&inserted) or Err((&existing, value))).'),
+ 'C14': dict(cat='other', tech='traversal/order analysis of the 16 tuple Clause impls + decision tables of every function that registers patterns, Each::deconstruct, try_from_clause, from_assembler + bounds query + compile-fail witnesses with twins',
+   text='Decides R14.1-R14.4: each tuple impl (arity 2..16) deconstructs fields 0..n-1 once each, in order, into the same sink and stops at the first error; every function that mutates the assembler\'s method table obeys the registration table (unproducible output or mode conflict => Err before anything is registered; same mode => append; new method => insert); an empty stub is rejected before any push; try_from_clause propagates the error and from_assembler panics on it at construction; at_least_times carries Ordering<Kind=InAnyOrder> and then() carries Repetition<Kind=Exact>, confirmed by 11 witnesses (5 rejected with E0271/E0277, twins compile); 17-tuples are not clauses.',
+   note='Arity 1: `(T,)` has no Clause impl (recorded as a fact by witness c14_tuple1_fact); the property\'s arity 1 is read as the bare clause. Trusted: rustc, exporter, rule engine.', engine='FACTS+TYWIT'),
 }
 
 checks = []
@@ -62,7 +72,8 @@ m = {
  'hooks': {'guard': 'unimock_verif', 'enable': 'none needed: static analysis reads /repo through the compiler; no instrumentation commits',
            'baseline_off_cmd': 'cd /repo && cargo test --workspace --no-fail-fast --offline', 'source_commits': [], 'add_only': True},
  'engines': [
-   {'name': 'FACTS', 'path': 'engines/mirfacts + engines/rules', 'serves_properties': sorted(c['property_id'] for c in checks if c['engine'] == 'FACTS'),
+   {'name': 'TYWIT', 'path': 'engines/tywit + engines/rules/tywit.py', 'serves_properties': ['C12', 'C14'], 'kind_free_text': 'compile-fail witnesses with compiling twins, compiled with rustc --emit=metadata against the rlib built from /repo\'s current tree; never executed'},
+   {'name': 'FACTS', 'path': 'engines/mirfacts + engines/rules', 'serves_properties': sorted(c['property_id'] for c in checks if 'FACTS' in c['engine']),
     'kind_free_text': 'rustc_private driver exporting MIR/type facts of /repo per feature configuration; python rules: path-sensitive abstract interpretation, decision tables, dominance, who-may-call, provenance'},
  ],
  'checks': checks,
